@@ -159,8 +159,9 @@ func ZZHarnessConsensus() {
 	}
 	sig[0] = zzNondetByte("sig0")
 	wide := zzParam("WIDE") == 1
+	lite := zzParam("LITE") == 1 // one signer, no justifications: the role-dependent rules at a fraction of the paths
 	nsig := 1
-	if !wide {
+	if !wide && !lite {
 		nsig = zzChoose("nsigners", n+2)
 	}
 	signers := make([]spectypes.OperatorID, nsig)
@@ -187,7 +188,7 @@ func ZZHarnessConsensus() {
 		},
 	}
 	justKind := 0
-	if !wide {
+	if !wide && !lite {
 		justKind = zzChoose("just", 3)
 	}
 	switch justKind {
